@@ -9,6 +9,8 @@ the workload or indirectly through ``direct_model.get_mesh`` and
 from __future__ import annotations
 
 import math
+import os
+import sys
 
 import numpy as np
 
@@ -36,7 +38,7 @@ REQUIRED_MONITORS = ["increasing", "inside_limits", "inside_support", "weights_f
 REQUIRED_BUCKETS = {
     "quick": ["type:gaussian", "type:lognormal", "type:schulz", "type:boltzmann", "type:uniform",
               "type:rectangle", "cut:none", "cut:lower", "cut:upper", "cut:both", "relative", "absolute",
-              "degenerate:zero_width", "degenerate:npts<2", "layer:get_mesh", "layer:sasview", "layer:shared-name-sequence", "layer:set_dispersion-shared-object", "layer:one-setting-changed-sequence", "layer:vector-element", "layer:fewer-than-two-points-with-width", "layer:set_dispersion-zero-width-after-width", "cut:symmetric", "layer:composite-kernel-1d", "layer:composite-kernel-2d",
+              "degenerate:zero_width", "degenerate:npts<2", "layer:get_mesh", "layer:sasview", "layer:shared-name-sequence", "layer:set_dispersion-shared-object", "layer:one-setting-changed-sequence", "layer:vector-element", "layer:fewer-than-two-points-with-width", "layer:set_dispersion-zero-width-after-width", "cut:symmetric", "layer:composite-kernel-1d", "layer:composite-kernel-2d", "layer:structure-factor-after-product-built",
               "partype:volume", "partype:orientation"],
 }
 REQUIRED_BUCKETS["thorough"] = REQUIRED_BUCKETS["quick"]
@@ -372,6 +374,15 @@ def run_layer(case, rec):
     info = sascore.load_model_info(name)
     rng = core.rng_for(case["seed"], PROP, "layer", name)
     Model = sasview_model._make_standard_model(name)
+    if info.structure_factor:
+        # a P@S product has been built with this structure factor earlier in the process (SasView does so whenever a
+        # structure factor is selected); the stand-alone structure factor keeps its own distributions
+        try:
+            sasview_model.MultiplicationModel(sasview_model._make_standard_model("sphere")(), Model())
+            sasview_model.MultiplicationModel(sasview_model._make_standard_model("cylinder")(), Model())
+            rec.bucket("layer:structure-factor-after-product-built")
+        except Exception as exc:
+            rec.check("model_layer_centre_width", False, {"model": name, "note": "MultiplicationModel could not be built", "exception": repr(exc)})
     npd = 0
     for p in info.parameters.call_parameters:
         if not p.polydisperse:
@@ -501,8 +512,22 @@ def run_layer(case, rec):
         if decl and decl[0].length > 1:
             rec.bucket("layer:vector-element")
         mm = Model()
+        # the bumps wrapper's model object carries the same settings as attributes, which a script rebinds one by one
+        import types as _types
+        stubs_ = os.path.join(core.VERIF, "rtm", "stubs")      # bumps.parameter is a stub (bumps is not installed)
+        if stubs_ not in sys.path:
+            sys.path.insert(0, stubs_)
+        from sasmodels import bumps_model
+        bm = bumps_model.Model(_types.SimpleNamespace(info=info), **{p.name: cur["value"], p.name + "_pd": cur["width"],
+                                                                       p.name + "_pd_n": cur["n"], p.name + "_pd_nsigma": cur["nsig"],
+                                                                       p.name + "_pd_type": cur["type"]})
         for st_ in steps:
             cur.update(st_)
+            for kk_, attr_ in (("value", p.name), ("width", p.name + "_pd"), ("n", p.name + "_pd_n"), ("nsig", p.name + "_pd_nsigma")):
+                if kk_ in st_:
+                    getattr(bm, attr_).value = cur[kk_]
+            if "type" in st_:
+                setattr(bm, p.name + "_pd_type", cur["type"])
             pars = {p.name: cur["value"], p.name + "_pd": cur["width"], p.name + "_pd_n": cur["n"],
                     p.name + "_pd_nsigma": cur["nsig"], p.name + "_pd_type": cur["type"]}
             mm.setParam(p.name, cur["value"])
@@ -518,7 +543,12 @@ def run_layer(case, rec):
                 _state["current"] = None
             idx = [q.name for q in info.parameters.call_parameters].index(p.name)
             _, pts, wts = mesh[idx]
-            for via, a, b in (("get_mesh", pts, wts), ("SasviewModel", pts2, wts2)):
+            _state["current"] = rec
+            try:
+                _, pts3, wts3 = direct_model.get_mesh(info, bm.state(), dim="1d")[idx]
+            finally:
+                _state["current"] = None
+            for via, a, b in (("get_mesh", pts, wts), ("SasviewModel", pts2, wts2), ("bumps Model.state()", pts3, wts3)):
                 ok = np.array_equal(np.asarray(a), exp_v) and np.array_equal(np.asarray(b), exp_w)
                 rec.check("mesh_is_get_weights_for_this_parameter", ok,
                           None if ok else {"model": name, "parameter": p.name, "via": via + " after a request differing in " +
